@@ -119,3 +119,34 @@ Proof.
   induction ds as [|d ds IH]; intros rem; [reflexivity|]. cbn [fmask mask_loop]. destruct ds as [|d2 ds]; [reflexivity|].
   destruct (Qlt_le_dec (rem - d) (res / filter_tolerance_div)); now rewrite IH.
 Qed.
+
+(* how long an accumulation window can be: for the exact filter, when every distance is at least dmin and K dmin exceeds
+   0.9 res no window has K subtractions -- e.g. constant-speed sampling every res/10 .. res/9 (C12_sampling) gives K = 10 *)
+Lemma exact_windows res dmin K : 0 < res -> 0 < dmin -> (9 # 10) * res < inject_Z (Z.of_nat K) * dmin ->
+  forall ds rem k, Forall (fun d => dmin <= d) ds -> rem <= res - inject_Z (Z.of_nat k) * dmin ->
+  windows_le K k (mask_loop res rem ds).
+Proof.
+  intros Hres Hdm HK.
+  assert (H10 : res / filter_tolerance_div == (1 # 10) * res) by (unfold filter_tolerance_div; field).
+  induction ds as [|d ds IH]; intros rem k Hd Hrem; [exact I|].
+  cbn [mask_loop]. destruct ds as [|d2 ds]; [cbn; exact I|].
+  inversion Hd as [|? ? Hd1 Hd']; subst.
+  destruct (Qlt_le_dec (rem - d) (res / filter_tolerance_div)) as [Hlt|Hge]; cbn [windows_le].
+  - apply (IH res 0%nat Hd'). change (inject_Z (Z.of_nat 0)) with 0. lra.
+  - assert (Hk1 : inject_Z (Z.of_nat (S k)) == inject_Z (Z.of_nat k) + 1).
+    { rewrite Nat2Z.inj_succ. unfold Z.succ. rewrite inject_Z_plus. reflexivity. }
+    split.
+    + (* (k + 1) dmin <= 0.9 res < K dmin *)
+      rewrite H10 in Hge.
+      assert (Hb : (inject_Z (Z.of_nat k) + 1) * dmin < inject_Z (Z.of_nat K) * dmin) by nra.
+      assert (Hc : inject_Z (Z.of_nat k) + 1 < inject_Z (Z.of_nat K)) by nra.
+      change 1 with (inject_Z 1) in Hc. rewrite <- inject_Z_plus, <- Zlt_Qlt in Hc. lia.
+    + apply (IH (rem - d) (S k) Hd'). rewrite Hk1. nra.
+Qed.
+
+Corollary exact_windows_top res dmin K : 0 < res -> 0 < dmin -> (9 # 10) * res < inject_Z (Z.of_nat K) * dmin ->
+  forall ds, Forall (fun d => dmin <= d) ds -> windows_le K 0 (mask_loop res res ds).
+Proof.
+  intros H1 H2 H3 ds Hd. apply (exact_windows res dmin K H1 H2 H3 ds res 0%nat Hd).
+  change (inject_Z (Z.of_nat 0)) with 0. ring_simplify. apply Qle_refl.
+Qed.
